@@ -269,11 +269,12 @@ def write_xattr_file(nodes, path):
 
 
 def xattr_file_ok(nodes):
-    """the map file is line based and trimmed: paths with leading/trailing blanks or newlines cannot be named"""
+    """the map file is line based and its lines are trimmed on both sides: a path that ends in white space or
+    contains a line break cannot be named in it"""
     for n in nodes:
         if n.xattrs:
             p = n.path
-            if p != p.strip() or b"\n" in p or b"\r" in p or b"\t" in p.split(b"/")[-1][-1:] or p.endswith(b" "):
+            if b"\n" in p or b"\r" in p or (p and p[-1:] in b" \t\x0b\x0c"):
                 return False
     return True
 
@@ -323,6 +324,9 @@ def write_packfile(nodes, packdir, pf_path, explicit_root, implicit_p, rnd):
 def materialize_dir(nodes, root, set_xattr=False):
     """create the tree on disk below root (needs root privileges for devices / owners)."""
     os.makedirs(root, exist_ok=True)
+    if set_xattr and nodes and nodes[0].path == b"" and nodes[0].xattrs:
+        for k, v in nodes[0].xattrs.items():      # --keep-xattr reads the pack directory itself for the root inode
+            os.setxattr(root, k, v)
     later = []
     for n in nodes:
         if n.path == b"":
@@ -413,8 +417,6 @@ def expected_tree(nodes, mode, opts):
         x = {}
         if opts.get("xattr_file") or (mode == "packdir" and opts.get("keep_xattr")):
             x = {k: v.hex() for k, v in src.xattrs.items()}
-            if mode == "packdir" and opts.get("keep_xattr") and not opts.get("xattr_file"):
-                pass
         e["xattrs"] = x
         out[n.path] = e
     groups = {}
@@ -512,32 +514,30 @@ def sanitizer_hit(rc, err):
     return rc < 0 or rc in (134, 139, 124) or bool(SAN_RE.search(err))
 
 
-def describe_renderings(path):
-    """acceptable ways rdsquashfs -d may print a path (current escaping, and escaping that also protects backslashes)"""
-    r = {path}
-    if b" " in path or b'"' in path:
-        r = {b'"' + path.replace(b'"', b'\\"') + b'"', b'"' + path.replace(b"\\", b"\\\\").replace(b'"', b'\\"') + b'"'}
-    else:
-        r.add(b'"' + path.replace(b"\\", b"\\\\") + b'"')
+def token_renderings(tok):
+    """acceptable ways rdsquashfs -d may print one token: verbatim, or quoted with the quote character escaped,
+    or quoted with quote and backslash escaped (what split_line undoes).  Verbatim is only acceptable when the
+    description-file parser would read it back as the same single word."""
+    r = {b'"' + tok.replace(b'"', b'\\"') + b'"', b'"' + tok.replace(b"\\", b"\\\\").replace(b'"', b'\\"') + b'"'}
+    if tok and not any(c in tok for c in b' "'):
+        r.add(tok)
     return r
 
 
 def expected_describe_lines(exp):
-    """for every non-root path the set of acceptable -d lines"""
+    """for every path the set of acceptable -d lines (the root line is optional: older versions do not print it)"""
     out = []
     for p, e in exp.items():
-        if p == b"":
-            continue
         kw = {"dir": b"dir", "file": b"file", "slink": b"slink", "bdev": b"nod", "cdev": b"nod", "fifo": b"pipe", "sock": b"sock"}[e["type"]]
         tail = b" 0%o %d %d" % (e["perm"], e["uid"], e["gid"])
         extras = {b""}
         if e["type"] == "slink":
-            t = e["target"]
-            extras = {b" " + t, b" " + quote(t)}
+            extras = {b" " + t for t in token_renderings(e["target"])} | {b" " + e["target"]}
         elif e["type"] in ("bdev", "cdev"):
             extras = {b" %s %d %d" % (b"b" if e["type"] == "bdev" else b"c", e["dev"][0], e["dev"][1])}
         alts = set()
-        for nm in describe_renderings(p):
+        names = token_renderings(p) if p else {b"/"}
+        for nm in names:
             for x in extras:
                 alts.add(kw + b" " + nm + tail + x)
         out.append((p, alts))
@@ -568,6 +568,8 @@ def check_describe(exp, out_bytes):
                 hit = a
                 break
         if hit is None:
+            if p == b"":
+                continue      # versions that do not describe the root directory
             diffs.append("describe: no line for %r (expected one of %r)" % (p, sorted(alts)[:2]))
         else:
             pool[hit] -= 1
